@@ -24,6 +24,13 @@ def exhaustive(ck, cfg, timeout=3000):
     return docs
 
 
+def exhaustive_shard(ck, cfg, shard, timeout=3000):
+    """One shard of an exhaustive configuration (for the thorough tiers that judge shard by shard to bound memory)."""
+    r = core.tlc('DocGen', cfg, workers=1, env={'SHARD': shard}, timeout=timeout, heap='6g')
+    ck.add_tlc(r)
+    return dedupe(concretise(r.printed_json()))
+
+
 def simulate(ck, cfg, num, depth=80, procs=None, timeout=3000):
     procs = procs or min(core.NCPU, max(1, num // 200))
     per = max(1, num // procs)
